@@ -357,7 +357,9 @@ def check_case(sub, case, shrink=False):
 # order mark, comment and formula prefixes, null spellings, numbers that lose their form when interpreted): for the
 # round trip they are text like any other
 MAGIC_CELLS = ["sep=", "sep=;", "sep=,", "ID", "\ufeffid", "#", "# comment", "//", "%", "<?xml", "PK", "=1+1", "@a", "+1",
-               "-1", "NULL", "null", "None", "\\N", "NA", "N/A", "1e5", "0x10", "true", "00123", "1,5", "''", '""']
+               "-1", "NULL", "null", "None", "\\N", "NA", "N/A", "1e5", "0x10", "true", "00123", "1,5", "''", '""',
+               # the DOS end-of-file mark, and what a UTF-8 byte order mark looks like in an 8-bit code page
+               "\x1a", "\x1a\x1a", "\xef\xbb\xbfid", "\xef\xbb\xbf", "\xff\xfe", "\x04"]
 
 
 LONG_CELL_SIZES = (8191, 65535, 131070, 131071, 131072, 262143, 400000)  # plus one closing character
@@ -372,6 +374,9 @@ def magic_tables(config, number):
         tables.append([[magic] + [""] * (columns - 1), ["x"] * columns])
         if position % 2:
             tables.append([[magic] * columns, [magic] + ["y"] * (columns - 1)])
+        else:
+            # ... and as the last thing in the file
+            tables.append([["x"] * columns, [magic] + [""] * (columns - 1)])
     tables.append([["sep=" + config["delimiter"]] + [""], ["x", "y"]])
     return tables
 
